@@ -11,8 +11,18 @@ cd "$ROOT/harness" || exit 2
 mkdir -p "$ROOT/.bin" "$VERIF_DIR/evidence"
 BIN="$ROOT/.bin/verifx.$$"
 trap 'rm -f "$BIN"' EXIT
-OVL=()
-if [ -n "${VERIF_OVERLAY:-}" ]; then OVL=(-overlay "$VERIF_OVERLAY"); fi
+# every build goes through an overlay: the sync.Pool shim for the compressors plus, if given, the
+# change under test (VERIF_OVERLAY)
+if [ -n "${VERIF_OVERLAY:-}" ]; then
+  OVLDIR="$(mktemp -d /tmp/verif-build-XXXXXX)"
+  trap 'rm -f "$BIN"; rm -rf "$OVLDIR"' EXIT
+else
+  OVLDIR="$ROOT/.bin/overlay-base"   # stable paths keep the build cache warm
+fi
+export VERIF_SHIM="$ROOT/harness/instr/shim/vsync.go.txt"
+OVLJSON="$(go1.26.8 run ./cmd/mkoverlay "$OVLDIR")" || { echo "INFRA: overlay preparation failed (not a verdict)"; exit 2; }
+OVL=(-overlay "$OVLJSON")
+export VERIF_BUILD_OVERLAY="$OVLJSON"   # checks that build /repo binaries themselves (C17) use it too
 if [ "$ID" = "C11" ]; then
   # C11 runs inside testing/synctest bubbles and therefore is a test binary
   if ! go1.26.8 test -tags verif "${OVL[@]}" -c -o "$BIN" ./checks/c11/ >/tmp/verifx-build.$$.log 2>&1; then
